@@ -353,6 +353,95 @@ def stress(typed, n_writers, n_readers, rounds, out):
     return bad
 
 
+def enter_preemptions(typed, max_points=40):
+    """Systematic preemption inside `with tree:` of a FRESH tree (the first lock use): thread A is paused (sys.settrace, line
+    events, no patching of the library) at each line it executes inside `Tree.__enter__` and the nutree functions that calls;
+    while it is paused, thread B enters `with tree:` and stays inside its critical section until A has been resumed and either got
+    inside as well (mutual exclusion broken) or stayed blocked.  Returns (number of preemption points, problems)."""
+    import os
+
+    import nutree
+
+    pkg = os.path.dirname(os.path.abspath(nutree.__file__))
+
+    def run_one(pause_at):
+        tree = (TypedTree if typed else Tree)("c18-enter")      # never locked before: lazy initialisation would happen now
+        state = {"inside": 0, "max": 0, "seen": [], "in_enter": 0}
+        mu = threading.Lock()
+        a_paused, a_go, b_inside, b_leave = threading.Event(), threading.Event(), threading.Event(), threading.Event()
+
+        def crit(who, hold):
+            with mu:
+                state["inside"] += 1
+                state["max"] = max(state["max"], state["inside"])
+            hold()
+            with mu:
+                state["inside"] -= 1
+
+        def local(frame, event, arg):
+            if event == "line":
+                state["seen"].append((frame.f_code.co_name, frame.f_lineno))
+                if pause_at is not None and len(state["seen"]) - 1 == pause_at and not a_paused.is_set():
+                    a_paused.set()
+                    a_go.wait(3)
+            return local
+
+        def tracer(frame, event, arg):
+            if event != "call":
+                return None
+            fn = frame.f_code.co_filename
+            if frame.f_code.co_name == "__enter__" and fn.startswith(pkg):
+                state["in_enter"] += 1
+                return local
+            if state["in_enter"] and fn.startswith(pkg) and frame.f_code.co_name != "__exit__":
+                return local
+            return None
+
+        def a_body():
+            sys.settrace(tracer)
+            try:
+                with tree:
+                    sys.settrace(None)
+                    crit("A", lambda: time.sleep(0.02))
+            finally:
+                sys.settrace(None)
+
+        def b_body():
+            with tree:
+                crit("B", lambda: (b_inside.set(), b_leave.wait(0.6)))
+
+        ta = threading.Thread(target=a_body, daemon=True)
+        ta.start()
+        if pause_at is None:
+            ta.join(3)
+            return state
+        if not a_paused.wait(1.0):
+            ta.join(1)
+            return state
+        tb = threading.Thread(target=b_body, daemon=True)
+        tb.start()
+        b_inside.wait(0.3)        # B is inside (A was paused before it held the lock) or blocked (A holds it)
+        a_go.set()
+        ta.join(0.4)              # a correct lock keeps A out while B is inside (B leaves after <= 0.6 s)
+        b_leave.set()
+        ta.join(3)
+        tb.join(3)
+        if ta.is_alive() or tb.is_alive():
+            state["hang"] = True
+        return state
+
+    probe = run_one(None)
+    n = min(len(probe["seen"]), max_points)
+    problems = []
+    for k in range(n):
+        st = run_one(k)
+        if st.get("hang"):
+            problems.append(f"preemption at step {k} {probe['seen'][k]} of `with tree:`: a thread never got out (deadlock)")
+        elif st["max"] > 1:
+            problems.append(f"preemption at step {k} {probe['seen'][k]} of `with tree:` on a fresh tree: two threads were inside `with tree:` at the same time")
+    return n, problems
+
+
 def run(ctx):
     out = core.Outcome(
         rule="controlled two-thread schedules on the real code: thread A enters `with tree:`, adds a sentinel node, signals B, waits until B has finished or "
@@ -396,6 +485,11 @@ def run(ctx):
             out.dist["reader-first:" + opname] += 1
             for p in problems:
                 out.fail(case, f"[{'TypedTree' if typed else 'Tree'}.{opname}, reader first] {p}; event order {events}")
+        n_pts, problems = enter_preemptions(typed)
+        out.count((typed, "enter-preemptions"), True)
+        out.dist["enter_preemption_points"] += n_pts
+        for p in problems[:2]:
+            out.fail(dict(kind="enter-preemption", typed=typed), f"[{'TypedTree' if typed else 'Tree'}] {p}")
         done, problems = reentrant(typed, out)
         out.count((typed, "reentrant"), True)
         for p in problems:
@@ -416,6 +510,9 @@ def replay(ctx, rp):
     if case.get("kind") == "schedule":
         events, problems = controlled_schedule(case["typed"], case["op"], out, mode=case.get("mode", "sentinel"))
         return dict(events=events, problems=problems, property_holds=not problems)
+    if case.get("kind") == "enter-preemption":
+        n, problems = enter_preemptions(case["typed"])
+        return dict(points=n, problems=problems, property_holds=not problems)
     if case.get("kind") == "reader-first":
         events, problems = reader_first_schedule(case["typed"], case["op"])
         return dict(events=events, problems=problems, property_holds=not problems)
